@@ -14,7 +14,10 @@ CFG = {
             "position (path: single variable of every scalar type, each of three variables, typed head and elements "
             "of a wildcard, Option; typed wildcards Vec<Color> / Vec<Uuid> / Vec<char> with ONE ill-typed element alone, "
             "first, in the middle or last among valid ones (sometimes two); query: required / Option / defaulted field of every scalar type, mixed struct; "
-            "url-encoded and JSON body members; all three extractors at once with exactly one bad) one malformation "
+            "url-encoded and JSON body members; all three extractors at once with exactly one bad; a multi-fault stream over five "
+            "endpoint shapes with two or three extractors (Path+Query, Path+Query+JSON, Path+form, Query+Untyped, "
+            "Path+Query+Multipart; body limit 256): every non-empty subset of {path, query, body} faulty at once, two or "
+            "three concrete faults per stage (body: content type / syntax / type / duplicate field / too large)) one malformation "
             "of {wrong type, one past either end of the range, unknown variant, empty, omitted, duplicated, dot "
             "segment, ill-formed UTF-8}; JSON bodies truncated at EVERY prefix length of a valid document, "
             "wrong-typed / missing / duplicated members, extra and trailing commas, trailing garbage, two documents, "
@@ -24,7 +27,9 @@ CFG = {
             "Observables: a response must arrive, status in 4xx (never 5xx), error body = {request_id, message, "
             "optional error_code}, the endpoint's handler-entered counter (server private context) unchanged, and the "
             "server still answers on the same (or a fresh) connection. Judge: spec as just stated; model = Extract.v "
-            "returns Err e with xerr_status e = the observed status. Non-trivial: every case; distinct by content.",
+            "returns Err e with xerr_status e = the observed status AND xerr_class e = the error site told by the fixed head "
+            "of the response's message (which extractor / which check: with several faults, the first failing extractor "
+            "in argument order). Non-trivial: every case; distinct by content.",
     "exhaustive_note": "JSON truncation: every proper prefix of the generated valid documents (2 per quick run, 6 per "
                        "thorough run); everything else is sampled",
     "trusted_base": COMMON_TB + [
